@@ -9,7 +9,19 @@ from concurrent.futures import ThreadPoolExecutor
 from . import tla, adt, trace
 
 OBJ_NAME = {"buf": "TransactionalBuffer", "val": "TransactionalValue"}
-PAYLOAD_NAME = {"int": {"buf": "IntPair", "val": "int"}, "str": {"buf": "std::string", "val": "std::string"}}
+PAYLOAD_NAME = {"int": {"buf": "IntPair", "val": "int"}, "str": {"buf": "std::string", "val": "std::string"},
+                "w24": {"buf": "Pod24", "val": "Pod24"}, "oa": {"val": "Aligned64"}, "uptr": {"buf": "unique_ptr"},
+                "thr": {"buf": "ThrowingCopy", "val": "ThrowingCopy"}}
+PAYLOADS = {"buf": ["int", "str", "w24", "uptr", "thr"], "val": ["int", "str", "w24", "oa", "thr"]}
+
+
+def split_objects(calls):
+    """Calls of a history over several instances -> one list of calls per instance (instances are independent:
+    each instance's calls are one execution of the contract).  Regrouping only."""
+    out = {}
+    for c in calls:
+        out.setdefault(c.get("o", 0), []).append({k: v for k, v in c.items() if k != "o"})
+    return [out[o] for o in sorted(out)]
 
 
 def api(sc):
@@ -18,7 +30,7 @@ def api(sc):
 
 # ---------------------------------------------------------------------------
 # running the driver
-def run_scenarios(exe, scenarios, tag, nostamp=False, timeout=900, max_abnormal=6):
+def run_scenarios(exe, scenarios, tag, nostamp=False, timeout=900, max_abnormal=6, scenario_timeout=60):
     """Runs the scenarios (dicts with unique "id").  Returns dict id -> result where result is
     {"calls": [...]} or {"abnormal": "race"|"crash"|"timeout", "detail": text}.
     A process that dies (sanitizer report, signal, watchdog) is attributed to the first
@@ -39,7 +51,7 @@ def run_scenarios(exe, scenarios, tag, nostamp=False, timeout=900, max_abnormal=
                 f.write(json.dumps(sc, separators=(",", ":")) + "\n")
         if os.path.exists(outp):
             os.remove(outp)
-        cmd = [exe, "--in", inp, "--out", outp, "--timeout-s", "60"]
+        cmd = [exe, "--in", inp, "--out", outp, "--timeout-s", str(scenario_timeout)]
         if nostamp:
             cmd.append("--nostamp")
         t0 = time.time()
@@ -166,7 +178,7 @@ def to_lines(calls, obj):
     hint = {}
     for t, cs in per_thread.items():
         for a, b in zip(cs, cs[1:]):
-            if a["op"] == "update" and b["op"] == "get":
+            if a["op"] == "update" and b["op"] == "get" and b["v"] >= 0:     # (a get() that returned no encodable value is left to its own line)
                 hint[a["inv"]] = b["v"]
     cons = per_thread.get(0, [])
     for c in calls:
